@@ -51,7 +51,9 @@ def expand_splits(path, tmpdir):
         return out, done
     funcs = {n.name: n for n in tree.body if isinstance(n, ast.FunctionDef)}
     base = os.path.basename(path)[:-3]
-    for name, (param, count) in splits.items():
+    for name, sp in splits.items():
+        param = sp[0]
+        rng_ = range(sp[1]) if len(sp) == 2 else range(sp[1], sp[2])
         fn = funcs[name]
         doc = ast.get_docstring(fn) or ''
         tmo = None
@@ -61,7 +63,7 @@ def expand_splits(path, tmpdir):
         pres = [l.strip() for l in doc.splitlines() if l.strip().startswith('pre:')]
         args = [a.arg for a in fn.args.args]
         others = [a for a in args if a != param]
-        for v in range(count):
+        for v in rng_:
             gname = '%s__%s%d' % (name, param, v)
             gfile = os.path.join(tmpdir, '%s__%s.py' % (base, gname))
             pre_lines = '\n'.join('    ' + re.sub(r'\b%s\b' % re.escape(param), str(v), l) for l in pres)
